@@ -422,6 +422,8 @@ def rexpr(e, inputs=None):
         return e[1]
     if k == "bin":
         return "(%s %s %s)" % (rexpr(e[2], inputs), e[1], rexpr(e[3], inputs))
+    if k == "typeof":
+        return "typeof %s" % rexpr(e[1], inputs)
     if k == "not":
         return "(!%s)" % rexpr(e[1], inputs)
     if k == "neg":
